@@ -1,2 +1,4 @@
 import TransportVerif.Props.C09
-#print axioms TV.Props.C09.placeholder
+#print axioms TV.Props.C09.judged09
+#print axioms TV.Props.C09.pending_wrap_witness
+#print axioms TV.Props.C09.deadline_reports_last_set
